@@ -364,9 +364,9 @@ package jsonschema
 //@   ensures[C04,C09] tstruct: result0 != nil && plain && tkind(tbase(t0)) == 25 ==> typeIs(result0, "object", tkind(t0) == 22) && closedObject(result0)
 //@   ensures[C04,C09] tarray: result0 != nil && plain && tkind(tbase(t0)) == 17 ==> typeIs(result0, "array", tkind(t0) == 22) && result0.Items != nil && result0.MinItems != nil && *result0.MinItems == tlen(tbase(t0)) && result0.MaxItems != nil && *result0.MaxItems == tlen(tbase(t0))
 //@   ensures[C04,C09] tslice: result0 != nil && plain && tkind(tbase(t0)) == 23 && envOf("JSONSCHEMAGODEBUG") != "typeschemasnull=1" ==> result0.Type == "" && len(result0.Types) == 2 && result0.Types[0] == "null" && result0.Types[1] == "array" && result0.Items != nil && result0.MinItems == nil && result0.MaxItems == nil
-//@   loopinv obj: tkind(t) == 25 ==> s.Type == "object" && isnil(s.Types) && closedObject(s)
+//@   loopinv[C04,C09] obj: tkind(t) == 25 ==> s.Type == "object" && isnil(s.Types) && closedObject(s)
 //@   loop "for t.Kind() == reflect.Pointer"
-//@     invariant base: tbase(t) == tbase(t0) && (allowNull ==> tkind(t0) == 22) && (!allowNull ==> t == t0)
+//@     invariant[C04,C09] base: tbase(t) == tbase(t0) && (allowNull ==> tkind(t0) == 22) && (!allowNull ==> t == t0)
 //@   ensures[C16,C10] fresh: result0 != nil ==> fresh(result0)
 //@   ensures[C16,C10] total: !ignore && result1 == nil ==> result0 != nil
 //@   loopinv n1: new(s) && fresh(s)
